@@ -7,6 +7,8 @@ this step, "the reported distances are the tightest ones implied" follows for hi
 the matrix dimension.  set_dist / set_pred are replaced by their (C08-proved) contracts."""
 from vlib.engine import Contract, Job, Known
 
+R = '__CPROVER_return_value'
+
 TUS = ['smt/arith/dl/idl_theory.cpp', 'smt/theory.cpp']
 ABS = {'smt::sat_core': ['assigns'], 'smt::theory': ['sat', 'cnfl'], 'smt::idl_theory': ['n_vars', '_dists', '_preds', 'dist_constr', 'dist_constrs', 'layers', 'listening'],
        'smt::idl_theory::idl_distance': ['b', 'from', 'to', 'dist'], 'smt::idl_value_listener': []}
@@ -46,7 +48,7 @@ def jobs(tier):
         assigns='__exc, self->_dists, self->_preds, self->base_theory.cnfl')
     out.append(Job('idl.propagate_edge', 'smt_idl_theory_propagate__U__U__I', tus=TUS, contract=c, defines=d, unwind=N + 2, model_unwind=max(2 + 4 * N + 2 * N * N, 12) + 1,
                    spec_headers=['dl_apsp_spec.h'], callee_contracts={REC: C_REC, 'smt_idl_value_listener_idl_value_change__U': C_REC}, replace=[REC, 'smt_idl_value_listener_idl_value_change__U'], exceptions=True,
-                   caps=caps, abstract_fields=ABS, timeout=3000, mem_gb=32, solver='cadical', loop_unwind={6: 2 + 4 * N + 2 * N * N + 2},
+                   caps=caps, abstract_fields=ABS, timeout=3000, mem_gb=32, mem_est=8, solver='cadical', loop_unwind={6: 2 + 4 * N + 2 * N * N + 2},
                    # the theory object is owned by the harness so that 'no registered constraints' is a concrete fact for symbolic execution
                    harness='void xt_harness(void)\n{\n  xt_init_globals();\n  struct smt_idl_theory th; th.dist_constrs.n = 0; th.base_theory.cnfl.n = 0; th.layers.n = 0; th.listening.n = 0;   /* root level, no listeners: set_dist/set_pred run inline */\n  { struct vec_vec_I ge; xt_E = ge; }\n  U_t *from; U_t *to; I_t *dist;\n  smt_idl_theory_propagate__U__U__I(&th, from, to, dist);\n}\n',
                    force_types=['std::vector<std::vector<long>>', 'std::vector<std::vector<unsigned long>>'],
@@ -70,4 +72,96 @@ def jobs(tier):
   observed = show_matrix(th->_dists, n) + why; required = "closure of the old matrix plus the edge; predecessors = last hops";
 ''' % ('62' if tier == 'quick' else '16382')},
                    bounded='%d time points; finite weights in [-3, 3] (quick) / [-8, 8] plus the inf() sentinel; no registered undecided constraints (the re-propagation loop is empty)' % N))
+    out.append(lit_job(tier, c))
     return out
+
+
+def lit_job(tier, c_edge):
+    """idl_theory::propagate(const lit &p): p controls the distance constraint dd (to - from <= dist).  With the edge step
+    replaced by its (proved) contract: a conflict is reported exactly when the constraint (or, for a false literal, its
+    negation from - to <= -dist - 1) closes a negative cycle with the current closure; otherwise the new matrix is exactly the
+    closure of the old one plus that edge, the constraint becomes the enforced one of its pair and the APSP invariants are
+    kept.  On conflict nothing changes, and the explanation clause is falsified by the current assignment and ends in !p."""
+    N = 3
+    d = {'U_BITS': 8, 'I_BITS': 8, 'WIDE_BITS': 16, 'XT_N': N, 'XT_R': 3, 'XT_MC': 2, 'XT_NV': 4}
+    PROPE = 'smt_idl_theory_propagate__U__U__I'
+    # the callee: everything propagate(from, to, dist) was proved to need and to guarantee (is_fresh / recording clauses dropped)
+    ce = Contract(requires=[r for r in c_edge.requires if 'is_fresh' not in r and 'spa_rec' not in r],
+                  ensures=[e for e in c_edge.ensures], assigns='__exc, self->_dists, self->_preds, self->base_theory.cnfl')
+    DD = 'self->var_dists.e[0].second'
+    SATP = 'self->base_theory.sat'
+    V = '(spl_value(%s->assigns, %s->b) == SPL_TRUE)' % (SATP, DD)
+    D0, P0, C0 = OLD('self->_dists'), OLD('self->_preds'), OLD('self->dist_constr')
+    F, T, K = '%s->from' % DD, '%s->to' % DD, '%s->dist' % DD
+    CONFLICT = '(%s ? %s.e[%s].e[%s] < -%s : %s.e[%s].e[%s] <= %s)' % (V, D0, T, F, K, D0, F, T, K)
+    EF, ET, EK = '(%s ? %s : %s)' % (V, F, T), '(%s ? %s : %s)' % (V, T, F), '(I_t)(%s ? %s : -%s - 1)' % (V, K, K)
+    IMPROVES = '(%s.e[%s].e[%s] > %s)' % (D0, EF, ET, EK)
+    E1 = '(%s ? spa_E_with(xt_E, %s, %s, %s) : xt_E)' % (IMPROVES, EF, ET, EK)
+    c = Contract(
+        requires=['__CPROVER_is_fresh(self, sizeof(*self)) && __CPROVER_is_fresh(p, sizeof(*p)) && __CPROVER_is_fresh(%s, sizeof(*%s))' % (SATP, SATP),
+                  '__exc == 0 && self->n_vars == XT_N && spa_shape(self->_dists, self->_preds)', 'spa_range(self->_dists)', 'spa_closed(self->_dists)',
+                  'self->dist_constrs.n == 0 && self->base_theory.cnfl.n == 0 && self->layers.n == 0 && self->listening.n == 0',
+                  'spa_E_shape(xt_E) && spa_edges_respected(self->_dists, xt_E) && spa_pred_ok(self->_dists, self->_preds, xt_E)',
+                  # the constraint controlled by p, as new_distance creates it: a positive literal of p's variable, two different time points
+                  'self->var_dists.n == 1 && self->var_dists.e[0].first == (p->x >> 1) && __CPROVER_is_fresh(%s, sizeof(*%s))' % (DD, DD),
+                  '%s < XT_N && %s < XT_N && %s != %s && %s >= -XT_R && %s < XT_R && %s->b.x == (U_t)(((p->x >> 1) << 1) + 1)' % (F, T, F, T, K, K, DD),
+                  # p has just been made true
+                  'spl_assigns_wf(%s->assigns) && (p->x >> 1) < XT_NV && (p->x >> 1) >= 1 && spl_value(%s->assigns, *p) == SPL_TRUE' % (SATP, SATP),
+                  'spl_wf_C(self->dist_constr)',
+                  '(self->dist_constr.n < 1 || (__CPROVER_is_fresh(self->dist_constr.e[0].second, sizeof(*%s)) && (self->dist_constr.e[0].second->b.x >> 1) < XT_NV))' % DD,
+                  '(self->dist_constr.n < 2 || (__CPROVER_is_fresh(self->dist_constr.e[1].second, sizeof(*%s)) && (self->dist_constr.e[1].second->b.x >> 1) < XT_NV))' % DD,
+                  # assumed (not yet proved as an invariant of the edge step): predecessor rows are trees, walks end within N - 1 hops
+                  'spa_walk_ok(self->_preds, %s, %s) && spa_walk_ok(self->_preds, %s, %s)' % (T, F, F, T),
+                  'spa_rec(self->_dists, self->_preds, xt_E, %s, %s, %s) && spl_rec(%s->assigns, self->dist_constr, *p)' % (F, T, K, SATP)],
+        ensures=[('noexcept', '__exc == 0'),
+                 ('conflict_iff_the_constraint_closes_a_negative_cycle', '%s == !%s' % (R, CONFLICT)),
+                 ('without_conflict_distances_are_the_exact_closure', '!%s || spa_is_closure_step(%s, self->_dists, %s, %s, %s)' % (R, D0, EF, ET, EK)),
+                 ('without_conflict_invariants_kept', '!%s || (spa_closed(self->_dists) && spa_pred_ok(self->_dists, self->_preds, %s) && spa_edges_respected(self->_dists, %s))' % (R, E1, E1)),
+                 ('without_conflict_no_clause', '!%s || self->base_theory.cnfl.n == 0' % R),
+                 ('constraint_becomes_the_enforced_one_of_its_pair', '!%s || (%s ? spl_C_eq_except(%s, self->dist_constr, %s, %s, %s) : spl_C_eq_except(%s, self->dist_constr, XT_N, XT_N, 0))' % (
+                     R, IMPROVES, C0, EF, ET, DD, C0)),
+                 ('conflict_changes_nothing', '%s || (spa_D_same(%s, self->_dists) && spa_P_same(%s, self->_preds) && spl_C_eq_except(%s, self->dist_constr, XT_N, XT_N, 0))' % (R, D0, P0, C0)),
+                 ('conflict_clause_is_falsified_and_ends_with_not_p', '%s || spl_conflict_clause_ok(%s->assigns, self->base_theory.cnfl, *p)' % (R, SATP))],
+        assigns='__exc, self->_dists, self->_preds, self->base_theory.cnfl, self->dist_constr')
+    caps = {'vec_vec_I': N, 'vec_I': N, 'vec_vec_U': N, 'vec_U': N, 'map_pair_U_U_vec_idl_distancep': 1, 'vec_idl_distancep': 1, 'map_pair_U_U_idl_distancep': 3,
+            'vec_lit': N, 'vec_us': 4, 'vec_layer': 1, 'map_pair_U_U_I': 1, 'map_pair_U_U_U': 1, 'umap_U_idl_distancep': 1,
+            'umap_U_set_idl_value_listenerp': 1, 'set_idl_value_listenerp': 1}
+    return Job('idl.propagate_lit', 'smt_idl_theory_propagate__lit', tus=TUS, contract=c, defines=d, unwind=N + 2, model_unwind=12,
+               spec_headers=['dl_apsp_spec.h', 'dl_lit_spec.h'], callee_contracts={PROPE: ce}, replace=[PROPE], exceptions=True,
+               caps=caps, abstract_fields=dict(ABS, **{'smt::idl_theory': ABS['smt::idl_theory'] + ['var_dists']}), timeout=3000, mem_gb=24, mem_est=6, solver='cadical',
+               force_types=['std::vector<std::vector<long>>', 'std::vector<std::vector<unsigned long>>'],
+               replay={'driver': 'dl', 'stanza': LIT_REPLAY},
+               bounded='%d time points, weights in [-3, 3] (the constraint of p in [-3, 2] so that its negation is in range too); <= 2 enforced constraints before the call; root level (no open undo layer); no registered constraints to re-propagate' % N)
+
+
+LIT_REPLAY = '''  const int n = XT_N; sat_core sat; long xinf = 62;
+  for (int v = 1; v < XT_NV; v++) sat.new_var();
+  idl_theory *th = build_idl(sat, n, xinf);
+  for (int v = 0; v < XT_NV; v++) sat.assigns[v] = (lbool)S[400 + v];
+  lit p; p.x = (size_t)S[4];
+  size_t from = S[1], to = S[2]; I dist = S[3];
+  auto *dd = new idl_theory::idl_distance(lit(variable(p)), from, to, dist);
+  th->var_dists.emplace(variable(p), dd);
+  for (long k = 0; k < S[500]; k++) { lit b; b.x = (size_t)S[512 + 6 * k]; th->dist_constr[{(size_t)S[510 + 6 * k], (size_t)S[511 + 6 * k]}] = new idl_theory::idl_distance(b, S[513 + 6 * k], S[514 + 6 * k], S[515 + 6 * k]); }
+  std::vector<std::vector<I>> D0 = th->_dists; auto P0 = th->_preds; auto C0 = th->dist_constr;
+  bool V = sat.value(dd->b) == True;
+  bool conflict = V ? D0[to][from] < -dist : D0[from][to] <= dist;
+  size_t ef = V ? from : to, et = V ? to : from; I ek = V ? dist : -dist - 1;
+  bool ret = th->propagate(p);
+  std::string why;
+  if (ret != !conflict) { ok = false; why += " returned " + std::to_string(ret) + " but the constraint " + (conflict ? "closes" : "does not close") + " a negative cycle;"; }
+  if (ret) {
+    for (int i = 0; i < n; i++) for (int j = 0; j < n; j++) {
+      I best = D0[i][j];
+      if (D0[i][ef] != idl_theory::inf() && D0[et][j] != idl_theory::inf() && D0[i][ef] + ek + D0[et][j] < best) best = D0[i][ef] + ek + D0[et][j];
+      if (th->_dists[i][j] != best) { ok = false; why += " D[" + std::to_string(i) + "][" + std::to_string(j) + "]=" + std::to_string(th->_dists[i][j]) + " is not the closure (" + std::to_string(best) + ");"; } }
+    if (!th->cnfl.empty()) { ok = false; why += " a clause was produced without conflict;"; }
+    if (D0[ef][et] > ek) { auto it = th->dist_constr.find({ef, et}); if (it == th->dist_constr.end() || it->second != dd) { ok = false; why += " the constraint is not the enforced one of its pair;"; } }
+    else if (th->dist_constr != C0) { ok = false; why += " the enforced constraints changed although nothing was tightened;"; }
+  } else {
+    if (th->_dists != D0 || th->_preds != P0 || th->dist_constr != C0) { ok = false; why += " a conflict changed the theory's state;"; }
+    if (th->cnfl.empty() || th->cnfl.back() != !p) { ok = false; why += " the explanation does not end with !p;"; }
+    for (auto &l : th->cnfl) if (sat.value(l) != False) { ok = false; why += " explanation literal " + to_string(l) + " is not false;"; }
+  }
+  observed = show_matrix(th->_dists, n) + " ret=" + std::to_string(ret) + why; required = "conflict iff negative cycle; otherwise the exact closure with the constraint enforced";
+'''
